@@ -228,12 +228,14 @@ pub fn run_seqorder(a: &Args) {
     }
     let mut rng = Rng::new(a.seed);
     let ninst = if a.thorough { 12000 } else { 1200 };
+    // `--no-cache`: plain B&B with a custom processing order (C01: correct for every pop order, `Props/C01t.lean`)
+    let no_cache = a.extra.iter().any(|x| x == "--no-cache");
     for _ in 0..ninst {
-        let focus_cache = rng.chance(2, 3);
+        let focus_cache = !no_cache && rng.chance(2, 3);
         let fd = !focus_cache && rng.chance(1, 4);
         let fam = pick_fam(&mut rng, false, focus_cache, fd);
         let mut cfg = random_cfg(&fam, &mut rng, &[0, 1, 2]);
-        cfg.cache = rng.chance(3, 4);
+        cfg.cache = !no_cache && rng.chance(3, 4);
         if focus_cache { cfg.w = WE::F(*rng.pick(&[1usize, 1, 2])); }
         let mode = rng.range(1, 5) as usize;
         ORDER_MODE.store(mode, std::sync::atomic::Ordering::SeqCst);
